@@ -37,13 +37,16 @@ def refLoop : (Nat × Nat × Nat) → List ATy → (Nat × Nat × Nat) × List A
     let r' := refLoop r.1 ts
     (r'.1, r.2 :: r'.2)
 
-/-- sizes for which neither side reaches an abort site: an aggregate of at most 16 bytes is not empty, and an eightbyte
-    stored with `movss`/`movsd` has 4 or 8 bytes -/
+/-- sizes for which neither side reaches an abort site and both sides use the same number of stack slots: an aggregate
+    of at most 16 bytes is not empty, an eightbyte stored with `movss`/`movsd` has 4 or 8 bytes, an integer-class scalar
+    has 1..8 bytes, and the type is not an array (arrays are never passed by value) -/
 def aggSizeOk (ty : ATy) : Bool :=
   match ty with
   | .agg _ sz _ _ =>
     !(decide (sz ≤ 16)) || (decide (0 < sz) && (!(hasFlonum1 ty) || decide (sz = 4) || decide (8 ≤ sz))
       && (!(decide (sz > 8) && hasFlonum2 ty) || decide (sz = 12) || decide (sz = 16)))
+  | .int sz _ _ => decide (1 ≤ sz) && decide (sz ≤ 8)    -- one 8-byte slot / one register
+  | .arr .. => false                                     -- not an argument type
   | _ => true
 
 def sizesOk (s : Sig) : Bool :=
@@ -163,15 +166,15 @@ theorem caller_loop (ts : List ATy) : ∀ (cgp cfp stk off : Nat), ts.all aggSiz
     rw [classifyLoop_cons, popLoop_cons, refLoop_cons]
     -- name the successor states
     have hc : (classifyStep (cgp, cfp, stk) t).1 =
-        ((refStep (cgp, cfp, off) t).1.1, (refStep (cgp, cfp, off) t).1.2.1, (classifyStep (cgp, cfp, stk) t).1.2.2) := by
-      rw [← h1, ← h2]
+        ((refStep (cgp, cfp, off) t).1.1, (refStep (cgp, cfp, off) t).1.2.1, (classifyStep (cgp, cfp, stk) t).1.2.2) :=
+      Prod.ext h1 (Prod.ext h2 rfl)
     rw [hc, h3]
     cases hf : (classifyStep (cgp, cfp, stk) t).2
     · obtain ⟨p1, p2, p3, p4⟩ := h5 hf
       have ih' := ih (refStep (cgp, cfp, off) t).1.1 (refStep (cgp, cfp, off) t).1.2.1 stk off hok.2
       rw [p4]
       have hr : (refStep (cgp, cfp, off) t).1 =
-          ((refStep (cgp, cfp, off) t).1.1, (refStep (cgp, cfp, off) t).1.2.1, off) := by rw [← p3]
+          ((refStep (cgp, cfp, off) t).1.1, (refStep (cgp, cfp, off) t).1.2.1, off) := Prod.ext rfl (Prod.ext rfl p3)
       rw [hr]
       simp only [stackOffsets, combineCaller, firstPassSlots, secondPassSlots, popCount, List.map_cons, List.sum_cons,
         Bool.false_eq_true, if_false, p1, if_true, ih'.1, p2, Except.map]
@@ -182,12 +185,82 @@ theorem caller_loop (ts : List ATy) : ∀ (cgp cfp stk off : Nat), ts.all aggSiz
       have ih' := ih (refStep (cgp, cfp, off) t).1.1 (refStep (cgp, cfp, off) t).1.2.1 (stk + pushSlots t) (off + 8 * pushSlots t) hok.2
       rw [p4]
       have hr : (refStep (cgp, cfp, off) t).1 =
-          ((refStep (cgp, cfp, off) t).1.1, (refStep (cgp, cfp, off) t).1.2.1, off + 8 * pushSlots t) := by rw [← p3]
+          ((refStep (cgp, cfp, off) t).1.1, (refStep (cgp, cfp, off) t).1.2.1, off + 8 * pushSlots t) :=
+        Prod.ext rfl (Prod.ext rfl p3)
       rw [hr]
       simp only [stackOffsets, combineCaller, firstPassSlots, secondPassSlots, popCount, List.map_cons, List.sum_cons,
         if_true, p1, List.isEmpty_nil, ih'.1, p2, Except.map, List.length_nil]
       refine ⟨trivial, ?_, ?_, ih'.2.2.2⟩
       · rw [ih'.2.1]; omega
       · rw [ih'.2.2.1]; simp [popCount]
+
+
+theorem callerAssign_eq (s : Sig) (h : s.params.all aggSizeOk = true) :
+    callerAssign s = .ok (refLoop (b2n (retLarge s.ret), 0, 0) s.params).2 := by
+  have hb : min (b2n (retLarge s.ret)) GP_MAX = b2n (retLarge s.ret) := by
+    simp only [b2n, GP_MAX_eq]; split <;> omega
+  have h0 : min 0 FP_MAX = 0 := by simp
+  have := (caller_loop s.params (b2n (retLarge s.ret)) 0 0 0 h).1
+  rw [hb, h0] at this
+  simpa [callerAssign, classifyArgs, popPhase] using this
+
+/-! ### callee -/
+
+theorem callee_step (t : ATy) (ogp ofp top off : Nat) (hok : aggSizeOk t = true) (hinv : alignTo top 8 = 16 + off) :
+    (offsetStep (ogp, ofp, top) t).1.1 = (refStep (ogp, ofp, off) t).1.1 ∧
+    (offsetStep (ogp, ofp, top) t).1.2.1 = (refStep (ogp, ofp, off) t).1.2.1 ∧
+    alignTo (offsetStep (ogp, ofp, top) t).1.2.2 8 = 16 + (refStep (ogp, ofp, off) t).1.2.2 ∧
+    (∀ v, (offsetStep (ogp, ofp, top) t).2 = some v → (refStep (ogp, ofp, off) t).2 = .stack (v - 16)) ∧
+    ((offsetStep (ogp, ofp, top) t).2 = none →
+      ∃ ss, storeStep (min ogp GP_MAX, min ofp FP_MAX) t
+          = .ok ((min (refStep (ogp, ofp, off) t).1.1 GP_MAX, min (refStep (ogp, ofp, off) t).1.2.1 FP_MAX), ss) ∧
+        (refStep (ogp, ofp, off) t).2 = .regs (ss.map Store.reg)) := by
+  unfold alignTo at hinv
+  cases t with
+  | int sz u b =>
+    simp only [aggSizeOk, Bool.and_eq_true, decide_eq_true_eq] at hok
+    simp only [offsetStep, storeStep, refStep, GP_MAX_eq, FP_MAX_eq, ATy.size, alignTo, storeGp]
+    by_cases h : ogp < 6
+    · have h2 : min ogp 6 < 6 := by omega
+      simp [h, h2, Store.reg, bind, Except.bind, pure, Except.pure]
+      refine ⟨by omega, _, ⟨by omega, rfl⟩, ?_⟩
+      simp [Store.reg]; omega
+    · simp [h]; omega
+  | flt =>
+    simp only [offsetStep, storeStep, refStep, GP_MAX_eq, FP_MAX_eq, ATy.size, alignTo, storeFp]
+    by_cases h : ofp < 8
+    · have h2 : min ofp 8 < 8 := by omega
+      simp [h, h2, Store.reg, bind, Except.bind, pure, Except.pure]
+      refine ⟨by omega, _, ⟨by omega, rfl⟩, ?_⟩
+      simp [Store.reg]; omega
+    · simp [h]; omega
+  | dbl =>
+    simp only [offsetStep, storeStep, refStep, GP_MAX_eq, FP_MAX_eq, ATy.size, alignTo, storeFp]
+    by_cases h : ofp < 8
+    · have h2 : min ofp 8 < 8 := by omega
+      simp [h, h2, Store.reg, bind, Except.bind, pure, Except.pure]
+      refine ⟨by omega, _, ⟨by omega, rfl⟩, ?_⟩
+      simp [Store.reg]; omega
+    · simp [h]; omega
+  | ldbl =>
+    simp [offsetStep, refStep, ATy.size, alignTo]; omega
+  | arr e n => simp [aggSizeOk] at hok
+  | agg u sz al ms =>
+    have hmin := structInRegs_min (.agg u sz al ms) ogp ofp
+    simp only [offsetStep, storeStep, refStep, pushSlots, ATy.size, alignTo]
+    by_cases h16 : sz ≤ 16
+    · simp only [h16, if_true, true_and]
+      cases hok' : (structInRegs (.agg u sz al ms) ogp ofp).1
+      · simp; omega
+      · obtain ⟨hpos, hf1, hf2⟩ := aggSizeOk_agg hok h16
+        simp only [↓reduceIte]
+        simp only [structInRegs, ATy.size, b2n, GP_MAX_eq, FP_MAX_eq] at hok' ⊢
+        simp only [regsOf, ATy.size, storeFp, storeGp, hasFlonum1, hasFlonum2] at hf1 hf2 ⊢
+        simp only [hasFlonum1, hasFlonum2] at hok'
+        by_cases e1 : hasFlonum (.agg u sz al ms) 0 8 0 = true <;>
+          by_cases e2 : hasFlonum (.agg u sz al ms) 8 16 0 = true <;>
+          by_cases h8 : sz > 8 <;>
+          simp [e1, e2, h8, Store.reg, bind, Except.bind, pure, Except.pure] at hok' hf1 hf2 ⊢ <;> (trace_state; sorry)
+    · simp [h16]; omega
 
 end ChibiVerif.CallConv
